@@ -11,7 +11,7 @@
    number  sum_i field_i * 2^(w*i)  (which is what set_field into a zeroed array
    followed by saveValue<uint>(array) produces on a little-endian machine).
 
-   Every array read/write goes through [nthN]/[dac_upd] ([None] = out of bounds).
+   Every array read/write goes through [dac_nth] (= [nthN])/[dac_upd] ([None] = out of bounds).
    All names are prefixed dac_ so that the joint extraction has no clashes. *)
 From LibCSD Require Import Base Bytes.
 Local Open Scope N_scope.
@@ -28,6 +28,11 @@ Definition dac_U32 : N := 4294967296.
 Definition dac_sub32 (a b : N) : N := (a + dac_U32 - b mod dac_U32) mod dac_U32.
 Definition dac_add32 (a b : N) : N := (a + b) mod dac_U32.
 
+(* checked array read: [nthN] behind a bounds test, so that a wrapped index such as
+   (uint)0 - 1 is never converted to a unary number when the model is executed *)
+Definition dac_nth {A} (l : list A) (i : N) : option A :=
+  if i <? lenN l then nthN l i else None.
+
 (* checked array write *)
 Fixpoint dac_upd_nat {A} (l : list A) (i : nat) (v : A) : option (list A) :=
   match l, i with
@@ -35,7 +40,8 @@ Fixpoint dac_upd_nat {A} (l : list A) (i : nat) (v : A) : option (list A) :=
   | _ :: r, O => Some (v :: r)
   | x :: r, S i' => match dac_upd_nat r i' v with Some r' => Some (x :: r') | None => None end
   end.
-Definition dac_upd {A} (l : list A) (i : N) (v : A) : option (list A) := dac_upd_nat l (N.to_nat i) v.
+Definition dac_upd {A} (l : list A) (i : N) (v : A) : option (list A) :=
+  if i <? lenN l then dac_upd_nat l (N.to_nat i) v else None.
 
 (* ---- the bitmap: plain rank ------------------------------------------------ *)
 Fixpoint dac_count (l : list bool) : N :=
@@ -77,7 +83,7 @@ Section Scan.
     match k with
     | O => Some (i, st)
     | S k' =>
-        v <- nthN list i ;;
+        v <- dac_nth list i ;;
         if (0 <=? v)%Z then
           st' <- onsym j v st ;;
           dac_scan_inner k' (j + 1) (i + 1) st'
@@ -102,7 +108,7 @@ End Scan.
 (* pass 1: levelSizeAux[j]++ ; listLength++ *)
 Definition dac_count_sym (j : N) (_ : Z) (st : list N * N) : option (list N * N) :=
   let '(sizes, ll) := st in
-  c <- nthN sizes j ;;
+  c <- dac_nth sizes j ;;
   sizes' <- dac_upd sizes j (c + 1) ;;
   Some (sizes', ll).
 Definition dac_count_seq (st : list N * N) : list N * N := let '(sizes, ll) := st in (sizes, ll + 1).
@@ -120,11 +126,11 @@ Fixpoint dac_tam (w : N) (acc : N) (sizes : list N) : N :=
      if (j > 0) bitset(bits_BS, contB[j-1] - 1);                                   *)
 Definition dac_fill_sym (j : N) (v : Z) (st : list N * list N * list bool) : option (list N * list N * list bool) :=
   let '(syms, contB, bits) := st in
-  c <- nthN contB j ;;
+  c <- dac_nth contB j ;;
   syms' <- dac_upd syms c (Z.to_N v mod dac_U32) ;;
   contB' <- dac_upd contB j (c + 1) ;;
   if 0 <? j then
-    c1 <- nthN contB' (j - 1) ;;
+    c1 <- dac_nth contB' (j - 1) ;;
     bits' <- dac_upd bits (dac_sub32 c1 1) true ;;
     Some (syms', contB', bits')
   else Some (syms', contB', bits).
@@ -134,7 +140,7 @@ Fixpoint dac_rank_levels (bits : list bool) (lidx : list N) (k : nat) (j : N) : 
   match k with
   | O => Some []
   | S k' =>
-      li <- nthN lidx j ;;
+      li <- dac_nth lidx j ;;
       r <- dac_rank1 bits (dac_sub32 li 1) ;;
       rest <- dac_rank_levels bits lidx k' (j + 1) ;;
       Some (r :: rest)
@@ -148,8 +154,8 @@ Definition dac_build (list : list Z) (llen logr maxseq : N) : option dac :=
   let tamLevels := dac_tam logr 0 sizes in
   let lidx := dac_prefix_sums 0 sizes in
   let contB := firstn (N.to_nat nLevels) lidx in
-  total <- nthN lidx nLevels ;;
-  lastidx <- nthN lidx (dac_sub32 nLevels 1) ;;
+  total <- dac_nth lidx nLevels ;;
+  lastidx <- dac_nth lidx (dac_sub32 nLevels 1) ;;
   let bits_BS_len := lastidx + 1 in
   let syms0 := repeat 0 (N.to_nat total) in
   let bits0 := repeat false (N.to_nat bits_BS_len) in
@@ -175,18 +181,18 @@ Definition dac_build (list : list Z) (llen logr maxseq : N) : option dac :=
    The result list is sequence[0 .. l_seq).                                        *)
 Fixpoint dac_access_loop (d : dac) (fuel : nat) (j ini : N) (acc : list N) : option (list N) :=
   if j <? dac_sub32 (d_nLevels d) 1 then
-    b <- nthN (d_bits d) ini ;;
+    b <- dac_nth (d_bits d) ini ;;
     if b : bool then
       match fuel with
       | O => None
       | S f =>
           r <- dac_rank1 (d_bits d) ini ;;
-          rl <- nthN (d_rankLevels d) j ;;
+          rl <- dac_nth (d_rankLevels d) j ;;
           let rankini := dac_sub32 r rl in
           let j' := dac_add32 j 1 in
-          li <- nthN (d_levelsIndex d) j' ;;
+          li <- dac_nth (d_levelsIndex d) j' ;;
           let ini' := dac_sub32 (dac_add32 li rankini) 1 in
-          v <- nthN (d_syms d) ini' ;;
+          v <- dac_nth (d_syms d) ini' ;;
           if j' <? d_nLevels d then            (* sequence[j] is a write into new uint[nLevels] *)
             if j' =? dac_sub32 (d_nLevels d) 1 then Some (acc ++ [v])
             else dac_access_loop d f j' ini' (acc ++ [v])
@@ -197,7 +203,7 @@ Fixpoint dac_access_loop (d : dac) (fuel : nat) (j ini : N) (acc : list N) : opt
 
 Definition dac_access (d : dac) (pos : N) : option (list N) :=
   let ini := dac_sub32 pos 1 in
-  v <- nthN (d_syms d) ini ;;
+  v <- dac_nth (d_syms d) ini ;;
   if 0 <? d_nLevels d then dac_access_loop d (N.to_nat (d_nLevels d)) 0 ini [v] else None.
 
 (* the returned length l_seq *)
@@ -208,14 +214,14 @@ Definition dac_access_len (d : dac) (pos : N) : option N :=
 Definition dac_END : N := dac_U32 - 1.
 Definition dac_access_next (d : dac) (l pos : N) : option (N * N) :=
   let ini := dac_sub32 pos 1 in
-  v <- nthN (d_syms d) ini ;;
+  v <- dac_nth (d_syms d) ini ;;
   if l =? dac_sub32 (d_nLevels d) 1 then Some (v, dac_END)
   else
-    b <- nthN (d_bits d) ini ;;
+    b <- dac_nth (d_bits d) ini ;;
     if b : bool then
       r <- dac_rank1 (d_bits d) ini ;;
-      rl <- nthN (d_rankLevels d) l ;;
-      li <- nthN (d_levelsIndex d) (l + 1) ;;
+      rl <- dac_nth (d_rankLevels d) l ;;
+      li <- dac_nth (d_levelsIndex d) (l + 1) ;;
       Some (v, dac_add32 li (dac_sub32 r rl))
     else Some (v, dac_END).
 
@@ -285,24 +291,29 @@ Definition dac_wf_seq (logr maxseq : N) (s : list N) : bool :=
   negb (lenN s =? 0) && (lenN s <=? maxseq) && forallb (fun x => x <? 2 ^ logr) s.
 Definition dac_wf (seqs : list (list N)) (logr maxseq : N) : bool :=
   negb (lenN seqs =? 0) && forallb (dac_wf_seq logr maxseq) seqs
-  && (lenN (dac_flatten seqs) <? dac_U32) && (logr <=? 32).
+  && (lenN (dac_flatten seqs) <? dac_U32) && (logr <=? 32) && (maxseq + 1 <? dac_U32).
 
 (* ---- save / load -------------------------------------------------------------
    save: tamCode, listLength, nLevels (uint), base_bits (ushort), levelsIndex[nLevels+1],
          levels[tamCode/W+1], rankLevels[nLevels], then BitSequenceRG::save:
-         uint BRW32_HDR(=3), size_t n, size_t factor(=4), data[n/W+1], Rs[n/s+1] (s = 32*factor) *)
+         uint BRW32_HDR(=3), size_t n, size_t factor(=4), data[n/W+1], Rs[n/s+1] (s = 32*factor)
+
+   A bit-packed uint array (fields written by set_field / bits by bitset into zeroed words)
+   saved with saveValue<uint>(array, nwords) on a little-endian machine is the byte string
+   whose byte t holds bits 8t .. 8t+7 of the bit stream (field k = bits k*w .. k*w+w-1, least
+   significant first); bits past the end of the stream are the zero padding.               *)
 Definition dac_u32s (l : list N) : list N := flat_map (le_bytes 4) l.
 
-(* value of a packed array of w-bit fields / of a bitmap *)
-Fixpoint dac_fields_value (w : N) (l : list N) : N :=
-  match l with [] => 0 | x :: r => x + 2 ^ w * dac_fields_value w r end.
-Fixpoint dac_bits_value (l : list bool) : N :=
-  match l with [] => 0 | b :: r => (if b then 1 else 0) + 2 * dac_bits_value r end.
-(* get_field over the packed value, fields 0 .. k-1 *)
-Fixpoint dac_unpack_fields (w : N) (k : nat) (v : N) : list N :=
-  match k with O => [] | S k' => v mod 2 ^ w :: dac_unpack_fields w k' (v / 2 ^ w) end.
-Fixpoint dac_unpack_bits (k : nat) (v : N) : list bool :=
-  match k with O => [] | S k' => N.odd v :: dac_unpack_bits k' (v / 2) end.
+Definition dac_field_bits (w x : N) : list bool :=
+  map (fun k => N.testbit x (N.of_nat k)) (seq 0 (N.to_nat w)).
+Fixpoint dac_bits_val (l : list bool) : N :=
+  match l with [] => 0 | b :: r => (if b then 1 else 0) + 2 * dac_bits_val r end.
+Fixpoint dac_bytes_of_bits (nbytes : nat) (l : list bool) : list N :=
+  match nbytes with O => [] | S k => dac_bits_val (firstn 8 l) :: dac_bytes_of_bits k (skipn 8 l) end.
+Definition dac_bits_of_bytes (bs : list N) : list bool := flat_map (dac_field_bits 8) bs.
+(* get_field view of a bit stream: fields 0 .. k-1 of width w *)
+Fixpoint dac_fields_of_bits (w k : nat) (l : list bool) : list N :=
+  match k with O => [] | S k' => dac_bits_val (firstn w l) :: dac_fields_of_bits w k' (skipn w l) end.
 
 (* Rs[j] = ones in the first j superblocks of s = 128 bits, j = 0 .. n/128 *)
 Definition dac_rg_factor : N := 4.
@@ -312,27 +323,27 @@ Definition dac_rg_Rs (bits : list bool) : list N :=
 Definition dac_rg_save (bits : list bool) : list N :=
   let n := lenN bits in
   le_bytes 4 3 ++ le_bytes 8 n ++ le_bytes 8 dac_rg_factor ++
-  le_bytes (4 * N.to_nat (n / 32 + 1)) (dac_bits_value bits) ++
+  dac_bytes_of_bits (4 * N.to_nat (n / 32 + 1)) bits ++
   dac_u32s (dac_rg_Rs bits).
 
 Definition dac_save (d : dac) : list N :=
   le_bytes 4 (d_tamCode d) ++ le_bytes 4 (d_listLength d) ++ le_bytes 4 (d_nLevels d) ++
   le_bytes 2 (d_base_bits d) ++
   dac_u32s (d_levelsIndex d) ++
-  le_bytes (4 * N.to_nat (d_tamCode d / 32 + 1)) (dac_fields_value (d_base_bits d) (d_syms d)) ++
+  dac_bytes_of_bits (4 * N.to_nat (d_tamCode d / 32 + 1)) (flat_map (dac_field_bits (d_base_bits d)) (d_syms d)) ++
   dac_u32s (d_rankLevels d) ++
   dac_rg_save (d_bits d).
 
-(* loadValue<T>(fp) / loadValue<T>(fp, n): [None] models a short read *)
-Definition dac_take (k : nat) (bs : list N) : option (list N * list N) :=
-  if (length bs <? k)%nat then None else Some (firstn k bs, skipn k bs).
-Definition dac_rd (k : nat) (bs : list N) : option (N * list N) :=
+(* loadValue<T>(fp) / loadValue<T>(fp, n): [None] models a short read.  Counts are compared
+   as binary numbers before anything is converted to unary. *)
+Definition dac_take (k : N) (bs : list N) : option (list N * list N) :=
+  if lenN bs <? k then None else Some (firstn (N.to_nat k) bs, skipn (N.to_nat k) bs).
+Definition dac_rd (k : N) (bs : list N) : option (N * list N) :=
   '(a, r) <- dac_take k bs ;; Some (le_value a, r).
-Fixpoint dac_rd_u32s (k : nat) (bs : list N) : option (list N * list N) :=
-  match k with
-  | O => Some ([], bs)
-  | S k' => '(x, r) <- dac_rd 4 bs ;; '(xs, r') <- dac_rd_u32s k' r ;; Some (x :: xs, r')
-  end.
+Fixpoint dac_u32s_of_bytes (k : nat) (bs : list N) : list N :=
+  match k with O => [] | S k' => le_value (firstn 4 bs) :: dac_u32s_of_bytes k' (skipn 4 bs) end.
+Definition dac_rd_u32s (k : N) (bs : list N) : option (list N * list N) :=
+  '(a, r) <- dac_take (4 * k) bs ;; Some (dac_u32s_of_bytes (N.to_nat k) a, r).
 
 (* BitSequence::load peeks the tag, seeks back, BitSequenceRG::load re-reads it; any other
    tag is a different class / NULL: outside the model *)
@@ -343,20 +354,176 @@ Definition dac_rg_load (bs : list N) : option (list bool * list N) :=
   '(factor, r2) <- dac_rd 8 r1 ;;
   if factor =? 0 then None else      (* n / s with s = 32*factor *)
   let integers := (n + 1) / 32 + (if (n + 1) mod 32 =? 0 then 0 else 1) in
-  '(data, r3) <- dac_take (4 * N.to_nat integers) r2 ;;
-  '(_, r4) <- dac_rd_u32s (N.to_nat (n / (32 * factor) + 1)) r3 ;;
-  Some (dac_unpack_bits (N.to_nat n) (le_value data), r4).
+  '(data, r3) <- dac_take (4 * integers) r2 ;;
+  '(_, r4) <- dac_rd_u32s (n / (32 * factor) + 1) r3 ;;
+  Some (firstn (N.to_nat n) (dac_bits_of_bytes data), r4).
 
 Definition dac_load (bs : list N) : option (dac * list N) :=
   '(tam, r0) <- dac_rd 4 bs ;;
   '(ll, r1) <- dac_rd 4 r0 ;;
   '(nl, r2) <- dac_rd 4 r1 ;;
   '(bb, r3) <- dac_rd 2 r2 ;;
-  '(lidx, r4) <- dac_rd_u32s (N.to_nat (dac_add32 nl 1)) r3 ;;
-  '(lv, r5) <- dac_take (4 * N.to_nat (tam / 32 + 1)) r4 ;;
-  '(rl, r6) <- dac_rd_u32s (N.to_nat nl) r5 ;;
+  '(lidx, r4) <- dac_rd_u32s (dac_add32 nl 1) r3 ;;
+  '(lv, r5) <- dac_take (4 * (tam / 32 + 1)) r4 ;;
+  '(rl, r6) <- dac_rd_u32s nl r5 ;;
   '(bits, r7) <- dac_rg_load r6 ;;
-  total <- nthN lidx nl ;;           (* abstraction function only: how many fields the view has *)
+  total <- dac_nth lidx nl ;;        (* abstraction function only: how many fields the view has *)
   Some ({| d_tamCode := tam; d_base_bits := bb; d_listLength := ll; d_nLevels := nl;
-           d_levelsIndex := lidx; d_syms := dac_unpack_fields bb (N.to_nat total) (le_value lv);
+           d_levelsIndex := lidx;
+           d_syms := dac_fields_of_bits (N.to_nat bb) (N.to_nat total) (dac_bits_of_bytes lv);
            d_bits := bits; d_rankLevels := rl |}, r7).
+
+(* objects whose image determines them (what the constructor produces while the level
+   array stays below 2^32 bits) *)
+Definition dac_obj_wf (d : dac) : bool :=
+  (d_tamCode d <? dac_U32) && (d_listLength d <? dac_U32) && (d_nLevels d + 1 <? dac_U32) &&
+  (d_base_bits d <? 65536) &&
+  (lenN (d_levelsIndex d) =? d_nLevels d + 1) && forallb (fun x => x <? dac_U32) (d_levelsIndex d) &&
+  (lenN (d_rankLevels d) =? d_nLevels d) && forallb (fun x => x <? dac_U32) (d_rankLevels d) &&
+  (d_tamCode d =? d_base_bits d * lenN (d_syms d)) &&
+  forallb (fun x => x <? 2 ^ d_base_bits d) (d_syms d) &&
+  (match dac_nth (d_levelsIndex d) (d_nLevels d) with Some t => t =? lenN (d_syms d) | None => false end) &&
+  (lenN (d_bits d) <? 2 ^ 64).
+
+(* ============================================================================
+   DAC_BVLS (utils/DAC_BVLS.cpp): the byte-oriented sibling used by HASHUFFDAC.
+   The level arrangement is produced by the caller (StringDictionaryHASHUFFDAC);
+   the class stores it, derives rankLevels, and answers access / access_next
+   (HashDAC::scmp chains access_next).  levels is a plain byte array; the bitmap
+   covers ALL levels (last level all zero), there is no sentinel.
+   ============================================================================ *)
+Record bdac := mkBdac {
+  b_tamCode : N;            (* uint tamCode : number of bytes of levels *)
+  b_nLevels : N;
+  b_levelsIndex : list N;   (* uint[nLevels+1] *)
+  b_levels : list N;        (* uchar[tamCode] *)
+  b_bits : list bool;       (* bS *)
+  b_rankLevels : list N     (* uint[nLevels] *)
+}.
+
+(* for (i = 0; i < nLevels; i++) this->levelsIndex[i] = levelsIndex->at(i) (unchecked operator[]); *)
+Fixpoint bdac_copy (src : list N) (k : nat) (i : N) : option (list N) :=
+  match k with
+  | O => Some []
+  | S k' => x <- dac_nth src i ;; r <- bdac_copy src k' (i + 1) ;; Some (x :: r)
+  end.
+(* rankLevels[i] = ones[i-1] + rankLevels[i-1], i = 1 .. nLevels-1 (ones = the vector argument); [prev] = rankLevels[i-1] *)
+Fixpoint bdac_ranks (ones : list N) (k : nat) (i prev : N) : option (list N) :=
+  match k with
+  | O => Some []
+  | S k' =>
+      o <- dac_nth ones (i - 1) ;;
+      let cur := dac_add32 o prev in
+      r <- bdac_ranks ones k' (i + 1) cur ;; Some (cur :: r)
+  end.
+
+(* DAC_BVLS(tamCode, nLevels, &levelsIndex, &rankLevels, levels, bS) *)
+Definition bdac_make (tamCode nLevels : N) (lidx ones levels : list N) (bits : list bool) : option bdac :=
+  li <- bdac_copy lidx (N.to_nat nLevels) 0 ;;
+  if nLevels =? 0 then None else       (* rankLevels[0] = 0 writes into new uint[nLevels] *)
+  rl <- bdac_ranks ones (N.to_nat nLevels - 1) 1 0 ;;
+  Some {| b_tamCode := tamCode; b_nLevels := nLevels; b_levelsIndex := li ++ [tamCode];
+          b_levels := levels; b_bits := bits; b_rankLevels := 0 :: rl |}.
+
+(* access: the loop has no level test (the bitmap says 0 on the whole last level) *)
+Fixpoint bdac_access_loop (d : bdac) (fuel : nat) (j ini : N) (acc : list N) : option (list N) :=
+  b <- dac_nth (b_bits d) ini ;;
+  if b : bool then
+    match fuel with
+    | O => None
+    | S f =>
+        r <- dac_rank1 (b_bits d) ini ;;
+        rl <- dac_nth (b_rankLevels d) j ;;
+        let rankini := dac_sub32 r rl in
+        let j' := dac_add32 j 1 in
+        li <- dac_nth (b_levelsIndex d) j' ;;
+        let ini' := dac_sub32 (dac_add32 li rankini) 1 in
+        v <- dac_nth (b_levels d) ini' ;;
+        if j' <? b_nLevels d then            (* sequence[j] = ... into new uint[nLevels] *)
+          if j' =? dac_sub32 (b_nLevels d) 1 then Some (acc ++ [v])
+          else bdac_access_loop d f j' ini' (acc ++ [v])
+        else None
+    end
+  else Some acc.
+
+Definition bdac_access (d : bdac) (pos : N) : option (list N) :=
+  let ini := dac_sub32 pos 1 in
+  v <- dac_nth (b_levels d) ini ;;
+  if 0 <? b_nLevels d then bdac_access_loop d (N.to_nat (b_nLevels d)) 0 ini [v] else None.
+
+Definition bdac_access_next (d : bdac) (l pos : N) : option (N * N) :=
+  let ini := dac_sub32 pos 1 in
+  v <- dac_nth (b_levels d) ini ;;
+  if l =? dac_sub32 (b_nLevels d) 1 then Some (v, dac_END)
+  else
+    b <- dac_nth (b_bits d) ini ;;
+    if b : bool then
+      r <- dac_rank1 (b_bits d) ini ;;
+      rl <- dac_nth (b_rankLevels d) l ;;
+      li <- dac_nth (b_levelsIndex d) (l + 1) ;;
+      Some (v, dac_add32 li (dac_sub32 r rl))
+    else Some (v, dac_END).
+
+(* HashDAC::scmp: id = pos + 1; level = 0; while (id != -1) { value = access_next(level, &id); ...; level++; } *)
+Fixpoint bdac_chain (d : bdac) (fuel : nat) (l pos : N) : option (list N) :=
+  if pos =? dac_END then Some []
+  else match fuel with
+       | O => None
+       | S f =>
+           '(v, pos') <- bdac_access_next d l pos ;;
+           rest <- bdac_chain d f (l + 1) pos' ;;
+           Some (v :: rest)
+       end.
+Fixpoint bdac_chain_bounded (d : bdac) (k : nat) (l pos : N) : option (list N) :=
+  match k with
+  | O => Some []
+  | S k' =>
+      if pos =? dac_END then Some []
+      else '(v, pos') <- bdac_access_next d l pos ;;
+           rest <- bdac_chain_bounded d k' (l + 1) pos' ;;
+           Some (v :: rest)
+  end.
+
+(* save: tamCode, nLevels, levelsIndex[nLevels+1], levels[tamCode] (bytes), rankLevels[nLevels], bS *)
+Definition bdac_save (d : bdac) : list N :=
+  le_bytes 4 (b_tamCode d) ++ le_bytes 4 (b_nLevels d) ++ dac_u32s (b_levelsIndex d) ++
+  b_levels d ++ dac_u32s (b_rankLevels d) ++ dac_rg_save (b_bits d).
+
+Definition bdac_load (bs : list N) : option (bdac * list N) :=
+  '(tam, r0) <- dac_rd 4 bs ;;
+  '(nl, r1) <- dac_rd 4 r0 ;;
+  '(lidx, r2) <- dac_rd_u32s (dac_add32 nl 1) r1 ;;
+  '(lv, r3) <- dac_take tam r2 ;;
+  '(rl, r4) <- dac_rd_u32s nl r3 ;;
+  '(bits, r5) <- dac_rg_load r4 ;;
+  Some ({| b_tamCode := tam; b_nLevels := nl; b_levelsIndex := lidx; b_levels := lv;
+           b_bits := bits; b_rankLevels := rl |}, r5).
+
+Definition bdac_obj_wf (d : bdac) : bool :=
+  (b_tamCode d <? dac_U32) && (b_nLevels d + 1 <? dac_U32) &&
+  (lenN (b_levelsIndex d) =? b_nLevels d + 1) && forallb (fun x => x <? dac_U32) (b_levelsIndex d) &&
+  (lenN (b_rankLevels d) =? b_nLevels d) && forallb (fun x => x <? dac_U32) (b_rankLevels d) &&
+  (lenN (b_levels d) =? b_tamCode d) && forallb (fun x => x <? 256) (b_levels d) &&
+  (lenN (b_bits d) <? 2 ^ 64).
+
+(* what StringDictionaryHASHUFFDAC hands to the constructor for the byte sequences seqs
+   (sequence i = the Huffman-coded bytes of string i): levelsIndex (level starts), the number of
+   continuation bits set per level, the level-wise byte array and the bitmap *)
+Definition bdac_lvl (seqs : list (list N)) (j : nat) : list N :=
+  map (fun s => nth j s 0) (filter (fun s => (j <? length s)%nat) seqs).
+Definition bdac_cont (seqs : list (list N)) (j : nat) : list bool :=
+  map (fun s => (S j <? length s)%nat) (filter (fun s => (j <? length s)%nat) seqs).
+Definition bdac_layout (seqs : list (list N)) (nL : nat) : list N * list N * list N * list bool :=
+  let sizes := map (fun j => lenN (bdac_lvl seqs j)) (seq 0 nL) in
+  (firstn nL (dac_prefix_sums 0 sizes),
+   map (fun j => dac_count (bdac_cont seqs j)) (seq 0 nL),
+   concat (map (bdac_lvl seqs) (seq 0 nL)),
+   concat (map (bdac_cont seqs) (seq 0 nL))).
+Definition bdac_of_seqs (seqs : list (list N)) (nL : nat) : option bdac :=
+  let '(lidx, ones, levels, bits) := bdac_layout seqs nL in
+  bdac_make (lenN levels) (N.of_nat nL) lidx ones levels bits.
+
+Definition bdac_wf (seqs : list (list N)) (nL : nat) : bool :=
+  negb (lenN seqs =? 0) &&
+  forallb (fun s => negb (lenN s =? 0) && (lenN s <=? N.of_nat nL) && forallb (fun x => x <? 256) s) seqs &&
+  (lenN (dac_flatten seqs) <? dac_U32) && (N.of_nat nL + 1 <? dac_U32).
